@@ -672,19 +672,22 @@ func c08ThreeEpics(env *core.Env, classes *counter) int {
 func c08ClaimOrder(env *core.Env) map[string]interface{} {
 	type job struct {
 		perm  []int
-		equal bool // all created at the same instant
+		equal bool          // all created at the same instant
 		gap   time.Duration // distance between two creations when not equal (0 = the log's usual 1.5 s)
-		epics bool // odd tasks in E1, even tasks in E2; claim --epic E1
+		whole bool          // the first creation falls exactly on a whole second (its RFC3339Nano text has no fraction)
+		epics bool          // odd tasks in E1, even tasks in E2; claim --epic E1
 	}
 	var jobs []job
 	for _, n := range []int{3, 4} {
 		for _, p := range permutations(n) {
 			for _, eq := range []bool{false, true} {
-				jobs = append(jobs, job{p, eq, 0, false})
+				jobs = append(jobs, job{perm: p, equal: eq})
 			}
 			// created within one millisecond / one microsecond of each other (what plan and merged logs produce)
-			jobs = append(jobs, job{p, false, 7 * time.Microsecond, false}, job{p, false, time.Nanosecond, false})
-			jobs = append(jobs, job{p, false, 0, true}, job{p, false, 7 * time.Microsecond, true})
+			jobs = append(jobs, job{perm: p, gap: 7 * time.Microsecond}, job{perm: p, gap: time.Nanosecond})
+			jobs = append(jobs, job{perm: p, epics: true}, job{perm: p, gap: 7 * time.Microsecond, epics: true})
+			// the oldest stamped on a whole second, the others within that second (timestamps of different text length)
+			jobs = append(jobs, job{perm: p, gap: 200 * time.Millisecond, whole: true}, job{perm: p, gap: 200 * time.Millisecond, whole: true, epics: true})
 		}
 	}
 	var claims int64
@@ -714,6 +717,9 @@ func c08ClaimOrder(env *core.Env) map[string]interface{} {
 			}
 			if !j.equal {
 				if j.gap > 0 {
+					if k == 0 && j.whole {
+						l.t = l.t.Truncate(time.Second).Add(time.Second - j.gap)
+					}
 					l.t = l.t.Add(j.gap)
 					ts = l.t.Format(time.RFC3339Nano)
 				} else {
@@ -757,10 +763,10 @@ func c08ClaimOrder(env *core.Env) map[string]interface{} {
 			if first < len(want) {
 				wantID = `"id":"` + want[first] + `"`
 			}
-			report(env, fmt.Sprintf("C08 kind=claim-order-depends-on-id-order equal-times=%v gap=%v per-epic=%v", j.equal, j.gap, j.epics), fmt.Sprintf("%s: repeated claim hands out %v, oldest-first is %v", desc, got, want),
+			report(env, fmt.Sprintf("C08 kind=claim-order-depends-on-id-order equal-times=%v gap=%v whole-second-first=%v per-epic=%v", j.equal, j.gap, j.whole, j.epics), fmt.Sprintf("%s: repeated claim hands out %v, oldest-first is %v", desc, got, want),
 				mkTrace(st, desc, steps[:first+1], Assert{Kind: "out_lacks", Step: first + 1, Text: wantID}))
 		}
 	})
 	return map[string]interface{}{"stores": len(jobs), "claims": claims,
-		"rule": "3 and 4 ready tasks x every permutation of id rank vs creation order x {creation times 1.5 s apart, 7 us apart, 1 ns apart, one instant (tie-break by id), spread over two epics with claim --epic (1.5 s and 7 us apart)}; repeated claim until no_ready must hand out exactly the expected sequence"}
+		"rule": "3 and 4 ready tasks x every permutation of id rank vs creation order x {creation times 1.5 s apart, 7 us apart, 1 ns apart, 200 ms apart starting on a whole second, one instant (tie-break by id), spread over two epics with claim --epic (1.5 s and 7 us apart)}; repeated claim until no_ready must hand out exactly the expected sequence"}
 }
